@@ -50,6 +50,13 @@ def _muldiv(e: ast.AST, nums: List[ast.AST], dens: List[ast.AST], inv: bool = Fa
     (dens if inv else nums).append(e)
 
 
+def _shape_arg(call: ast.Call) -> Optional[ast.AST]:
+  """The shape operand of jax.random.rademacher(key, shape) however it is passed."""
+  if len(call.args) >= 2:
+    return call.args[1]
+  return next((k.value for k in call.keywords if k.arg == 'shape'), None)
+
+
 def _is_sign(ff: FuncFlow, e: ast.AST) -> Optional[ast.Call]:
   if isinstance(e, ast.Call) and ff.ext(e.func) == 'jax.random.rademacher':
     return e
@@ -164,7 +171,8 @@ def run(check: Check):
     vec = F['vec']
     w_name = vec.id if isinstance(vec, ast.Name) else None
     rd = F['sign_def']
-    shape_ok = rd is not None and w_name is not None and len(rd.args) >= 2 and txt(rd.args[1]) == f'{w_name}.shape' and rff.param_of(rd.args[0]) == rng
+    shape_ok = rd is not None and w_name is not None and _shape_arg(rd) is not None and txt(_shape_arg(rd)) == f'{w_name}.shape' and rd.args and rff.param_of(
+        rd.args[0]) == rng
     pad_ok = pow2 = False
     d_name = None
     if w_name is not None:
@@ -217,7 +225,7 @@ def run(check: Check):
     scaled, G = cands[0]
     t_arg_ok = iff.param_of(G['vec']) == ix
     rd = G['sign_def']
-    shape_ok = rd is not None and len(rd.args) >= 2 and txt(rd.args[1]) == f'{ix}.shape' and iff.param_of(rd.args[0]) == irng
+    shape_ok = rd is not None and _shape_arg(rd) is not None and txt(_shape_arg(rd)) == f'{ix}.shape' and rd.args and iff.param_of(rd.args[0]) == irng
     len_ok = G['scale'] == 'sqrt' and txt(G['length']) in (f'{ix}.size', f'len({ix})', f'{ix}.shape[0]')
     # (H D)^-1 = D H / d: the signs are applied on the opposite side of the transform from the forward direction
     fpos = F['sign_pos'] if F is not None else None
